@@ -216,6 +216,11 @@ def run(chk: common.Check) -> None:
         specs.append({'statement': src, 'mode': 'continuous', 'probe': True, 'timeout': 120, 'burst': b})
         specs.append({'statement': src, 'mode': 'interactive', 'policy': {'kind': 'all', 'command': 'continue'}, 'probe': True,
                       'timeout': 120, 'burst': b})
+    # text objects of the script's own classes (a str subclass defined in the script cannot be unpickled in the main process — the event
+    # must not carry the script's object), bytes-like oddities, very long lines
+    odd = ("import sys\nclass S(str):\n    pass\nfor i in range(8):\n    sys.stdout.write(S('%d\\n' % i) if i % 2 else '%d\\n' % i)\n"
+           "print(S('printed'))\nsys.stdout.write('x' * 70000 + '\\n')\n")
+    specs.append({'statement': odd, 'mode': 'continuous', 'probe': True, 'timeout': 60, 'burst': 10})
     # the script has emitted its whole burst and returned; a slow plugin keeps most of it in the channel; then interrupt() — the
     # process is not killed (the KeyboardInterrupt is handled in the child), so nothing may be lost
     for b in ([1500] if chk.tier == 'quick' else [400, 1500, 4000]):
